@@ -25,7 +25,9 @@ def _status_case(item):
     """-> (model line, impl tokens, failures of the property's clause decided on the recorded calls alone)"""
     from harness import pm
     name, prog, sched, status0 = item
-    r = pm.run_schedule(prog, sched, status0=status0)
+    # half of the cases: the class also sets its status from a state hook (on_entered), i.e. DURING transitions
+    hook = (sum(int(k) for k in sched) + len(name)) % 2 == 1
+    r = pm.run_schedule(prog, sched, status0=status0, hookstatus=hook)
     evs = list(r.p.__dict__.get('_status_ev', []))
     r.close()
     line = ' '.join(('Y' if k == 'Y' else k + _tok(a)) for k, a, _s in evs)
